@@ -70,6 +70,7 @@ type wopts struct {
 	Mask      string // "nil" | "{}" | "a" | "b" | "a,b" | "zz"
 	Reset     string // "" | "b"
 	Expect    string // "" | "value:<a>/<b>" | "check-pass" | "check-fail"
+	Expect2   string // a second precondition given after the first one (same forms): a write needs BOTH to hold
 	Before    bool   // InterceptBefore: value.a += old.a + 10
 	After     bool   // InterceptAfter: new.b = "after:" + first letter of old.b
 	WriteTime bool
@@ -92,6 +93,9 @@ func (o wopts) String() string {
 	if o.Expect != "" {
 		p = append(p, "expect="+o.Expect)
 	}
+	if o.Expect2 != "" {
+		p = append(p, "and-expect="+o.Expect2)
+	}
 	for _, f := range []struct {
 		on bool
 		n  string
@@ -101,6 +105,20 @@ func (o wopts) String() string {
 		}
 	}
 	return "[" + strings.Join(p, ",") + "]"
+}
+
+// holds: every precondition the call brought is satisfied by the stored value
+func (o wopts) holds(old val) bool {
+	exs := []string{o.Expect, o.Expect2}
+	if o.Expect != "" && o.Expect2 != "" && strings.HasPrefix(o.Expect, "value:") == strings.HasPrefix(o.Expect2, "value:") {
+		exs = exs[1:] // the same option given twice: the later one replaces the earlier, as with every option
+	}
+	for _, ex := range exs {
+		if ex == "check-fail" || (strings.HasPrefix(ex, "value:") && ex[6:] != old.String()) {
+			return false
+		}
+	}
+	return true
 }
 
 var errCheck = status.Error(codes.FailedPrecondition, "check failed")
@@ -150,15 +168,17 @@ func (o wopts) build(c *cb) []resource.WriteOption {
 	if o.Reset == "b" {
 		w = append(w, resource.WithResetPaths("default_string"))
 	}
-	switch {
-	case strings.HasPrefix(o.Expect, "value:"):
-		var v val
-		fmt.Sscanf(strings.Replace(o.Expect[6:], "/", " ", 1), "%d %s", &v.a, &v.b)
-		w = append(w, resource.WithExpectedValue(v.msg()))
-	case o.Expect == "check-pass":
-		w = append(w, resource.WithExpectedCheck(func(proto.Message) error { return nil }))
-	case o.Expect == "check-fail":
-		w = append(w, resource.WithExpectedCheck(func(proto.Message) error { return errCheck }))
+	for _, ex := range []string{o.Expect, o.Expect2} {
+		switch {
+		case strings.HasPrefix(ex, "value:"):
+			var v val
+			fmt.Sscanf(strings.Replace(ex[6:], "/", " ", 1), "%d %s", &v.a, &v.b)
+			w = append(w, resource.WithExpectedValue(v.msg()))
+		case ex == "check-pass":
+			w = append(w, resource.WithExpectedCheck(func(proto.Message) error { return nil }))
+		case ex == "check-fail":
+			w = append(w, resource.WithExpectedCheck(func(proto.Message) error { return errCheck }))
+		}
 	}
 	if o.Before {
 		w = append(w, resource.InterceptBefore(func(old, n proto.Message) {
@@ -244,10 +264,7 @@ func first(s string) string {
 }
 
 func (m *model) change(old val, v val, o wopts) (val, codes.Code) {
-	if strings.HasPrefix(o.Expect, "value:") && o.Expect[6:] != old.String() {
-		return old, codes.FailedPrecondition
-	}
-	if o.Expect == "check-fail" {
+	if !o.holds(old) {
 		return old, codes.FailedPrecondition
 	}
 	if o.Before {
@@ -417,11 +434,7 @@ func (m *model) apply(p op) outcome {
 			}
 			return out
 		}
-		if p.O.Expect == "check-fail" {
-			out.code = codes.FailedPrecondition
-			return out
-		}
-		if strings.HasPrefix(p.O.Expect, "value:") && p.O.Expect[6:] != old.String() {
+		if !p.O.holds(old) {
 			out.code = codes.FailedPrecondition
 			return out
 		}
@@ -679,6 +692,7 @@ func optionCombos(thorough, collection, del bool) []wopts {
 		{"mask", []func(*wopts){func(o *wopts) { o.Mask = "{}" }, func(o *wopts) { o.Mask = "a" }, func(o *wopts) { o.Mask = "b" }, func(o *wopts) { o.Mask = "a,b" }, func(o *wopts) { o.Mask = "zz" }}},
 		{"reset", []func(*wopts){func(o *wopts) { o.Reset = "b" }}},
 		{"expect", []func(*wopts){func(o *wopts) { o.Expect = "value:0/" }, func(o *wopts) { o.Expect = "value:1/x" }, func(o *wopts) { o.Expect = "check-pass" }, func(o *wopts) { o.Expect = "check-fail" }}},
+		{"and-expect", []func(*wopts){func(o *wopts) { o.Expect2 = "value:0/" }, func(o *wopts) { o.Expect2 = "value:1/x" }, func(o *wopts) { o.Expect2 = "check-pass" }}},
 		{"before", []func(*wopts){func(o *wopts) { o.Before = true }}},
 		{"after", []func(*wopts){func(o *wopts) { o.After = true }}},
 		{"writeTime", []func(*wopts){func(o *wopts) { o.WriteTime = true }}},
@@ -691,7 +705,7 @@ func optionCombos(thorough, collection, del bool) []wopts {
 			dim{"genID", []func(*wopts){func(o *wopts) { o.GenID = true }}})
 	}
 	if del {
-		dims = []dim{dims[2], {"allowMissing", []func(*wopts){func(o *wopts) { o.AllowMissing = true }}}}
+		dims = []dim{dims[2], dims[3], {"allowMissing", []func(*wopts){func(o *wopts) { o.AllowMissing = true }}}}
 	}
 	var out []wopts
 	seen := map[string]bool{}
